@@ -47,8 +47,11 @@ Inductive ilabel :=
 | LW                              (* some session changes the mailbox (one command) *)
 | LI (s : nat) (n : nat)          (* idler s takes one step; n = number of untagged
                                      responses fork() produces if this step is the diff *)
-| LDone (s : nat) (ok : bool).    (* the line the client of idler s sent is read, `done` is set;
+| LDone (s : nat) (ok : bool)     (* the line the client of idler s sent is read, `done` is set;
                                      ok = the line is DONE *)
+| LS (s : nat).                   (* the update event is set for idler s although nothing a client
+                                     must be told has changed (a SELECT by another session, a
+                                     STORE that changes nothing, ...) *)
 
 Definition idler0 : idler := mkIdler ICont 0 0 false None.
 Definition iinit (k : nat) : istate := mkI 0 (repeat idler0 k).
@@ -101,6 +104,11 @@ Definition istep (recheck : bool) (st : istate) (l : ilabel) : istate :=
           end
       | None => st
       end
+  | LS s =>
+      match nth_error (idlers st) s with
+      | Some i => mkI (hi st) (upd (idlers st) s (set_ev i))
+      | None => st
+      end
   end.
 
 Definition iexec (recheck : bool) (st : istate) (sched : list ilabel) : istate :=
@@ -120,6 +128,7 @@ Definition quiet_for (s : nat) (l : ilabel) : bool :=
   | LW => false
   | LI _ _ => true
   | LDone t _ => negb (Nat.eqb t s)
+  | LS _ => true
   end.
 Definition own_steps (s : nat) (sched : list ilabel) : nat :=
   length (filter (fun l => match l with LI t _ => Nat.eqb t s | _ => false end) sched).
